@@ -28,7 +28,7 @@ def cell_to_py(c, dt: str):
         return -math.inf
     if dt == "object":
         return int(c)
-    if dt.startswith(("int", "uint")):
+    if dt.startswith(("int", "uint", "datetime64", "timedelta64", "<U")):
         return int(c)
     if dt == "bool":
         return bool(c)
